@@ -249,6 +249,7 @@ func traceMask(t *Trace, key string) uint32 {
 }
 
 func runC20(c *Ctx) {
+	runShiftWidth(c, "C20-FIELDIDX")
 	p := c.P
 	c.Rule("C20-EMIT", "every token sequence the emitters can produce for a kind matches the JSON shape for that kind (balanced, separated by exactly one comma, quoted exactly once); nil pointer -> null", 8)
 	c.Rule("C20-FLOAT", "AppendFloat's bit size is 32 for Float32 values and 64 for Float64 values", 1)
